@@ -478,3 +478,61 @@ func TestVerif_C06(t *testing.T) {
 		out.Stat(k, stats[k])
 	}
 }
+
+// Repeated-RCPT stream: a recipient refused by a check (at any scope, for a permanent, temporary or
+// unclassified reason, with or without a configured status) is named again in the same transaction,
+// once or twice; every repetition must be refused as well, and a message to the other recipient must
+// not reach the refused one.
+func TestVerif_C06Repeat(t *testing.T) {
+	out := vOpenOut()
+	defer out.Close()
+	ctx := context.Background()
+	var cur *v6Run
+	n := 0
+	for check := 1; check <= 12; check++ { // the check number selects the reason / configured status (see v6Run.call)
+		for scope := 0; scope < 3; scope++ {
+			for reps := 1; reps <= 2; reps++ {
+				chk := &v6Check{id: check, run: &cur}
+				tgt := &v6Target{id: 0}
+				blk := &rcptBlock{targets: []module.DeliveryTarget{tgt}}
+				var g, s []module.Check
+				switch scope {
+				case 0:
+					g = []module.Check{chk}
+				case 1:
+					s = []module.Check{chk}
+				default:
+					blk.checks = []module.Check{chk}
+				}
+				p := &MsgPipeline{
+					msgpipelineCfg: msgpipelineCfg{
+						globalChecks: g,
+						perSource:    map[string]sourceBlock{},
+						defaultSource: sourceBlock{
+							checks:      s,
+							perRcpt:     map[string]*rcptBlock{"b0.example": blk},
+							defaultRcpt: &rcptBlock{rejectErr: errors.New("no such block")},
+						},
+					},
+					Hostname: "mx.example.org",
+					Resolver: &mockdns.Resolver{Zones: map[string]mockdns.Zone{}},
+				}
+				cur = &v6Run{script: map[string]int{fmt.Sprintf("%d/(SRcpt %s)", check, cN(10)): vReject}, delay: map[string]time.Duration{}}
+				d, err := p.Start(ctx, &module.MsgMetadata{ID: "verifrep", OriginalFrom: "sender@example.org"}, "sender@example.org")
+				if err != nil {
+					t.Fatal(err)
+				}
+				var replies []string
+				replies = append(replies, cBool(d.AddRcpt(ctx, "r10@b0.example", smtp.RcptOptions{}) == nil))
+				okOther := d.AddRcpt(ctx, "r11@b0.example", smtp.RcptOptions{}) == nil
+				for i := 0; i < reps; i++ {
+					replies = append(replies, cBool(d.AddRcpt(ctx, "r10@b0.example", smtp.RcptOptions{}) == nil))
+				}
+				d.Abort(ctx)
+				out.Case(fmt.Sprintf("CRepeat %s %s", cList(replies), cBool(okOther)))
+				n++
+			}
+		}
+	}
+	out.Stat("repeated-rcpt-sessions", n)
+}
